@@ -80,7 +80,27 @@ func (r *schedReader) Read(p []byte) (int, error) {
 		if t == "DE" {
 			return 1, io.EOF
 		}
-		return 1, nil
+		// a caller that asks for more than one byte gets as many as the schedule has ready
+		// (consecutive D tokens): a reader is free to fill the buffer it is given
+		n := 1
+		for n < len(p) && r.pos < len(r.data) {
+			j := r.i
+			for j < len(r.sched) && (r.sched[j] == "T" || r.sched[j] == "F") {
+				j++ // handler verdicts are not the reader's business
+			}
+			if j < len(r.sched) && r.sched[j] != "D" {
+				break
+			}
+			// (schedule exhausted = the behaviour ended here, e.g. a handler said stop; the
+			// reader itself still has data and would hand it to anyone asking for it)
+			p[n] = r.data[r.pos]
+			r.pos++
+			if j < len(r.sched) {
+				r.i = j + 1
+			}
+			n++
+		}
+		return n, nil
 	case "Z":
 		return 0, nil
 	case "E":
@@ -403,6 +423,11 @@ func replayStream(line []byte, a *Acc) {
 			}
 			if rd.desync != "" {
 				one("stream:"+l.Mode+":desync:"+shape, rd.desync)
+			}
+			// no over-read: when the bulk call returns, the reader stands where the last call of the
+			// specification's behaviour left it
+			if want := l.Calls[len(l.Calls)-1].Pos; rd.pos != want {
+				one(fmt.Sprintf("stream:%s:handler-overread:%s", l.Mode, shape), fmt.Sprintf("bulk call left the reader at byte %d, the specification at %d", rd.pos, want))
 			}
 		}
 	}
